@@ -285,7 +285,7 @@ def tags(chk, crates):
     # Case split over the key byte (256 values, each decided by constant propagation along feasible paths -
     # no execution): for which values is the two-byte form reachable, and can the one-byte result still be
     # produced for them?  Independent of how the test is spelled (||, match, matches!, named flag, early return).
-    from mirlite import feasible_reach
+    from mirlite import feasible_reach, is_error_propagation
 
     def key_locals(body, vx, pred):
         out = set()
@@ -441,7 +441,7 @@ def tags(chk, crates):
             for i in feasible_reach(dec, 0, pins=pl):
                 for st in dec.blocks[i]["stmts"]:
                     if st["s"] == "assign" and st["p"]["l"] == 0 and not st["p"]["p"] and st["rv"]["r"] == "agg" and \
-                            st["rv"].get("vname") == "Err" and not st.get("rewrap"):
+                            st["rv"].get("vname") == "Err" and not is_error_propagation(dec, st):
                         refused.setdefault(v, set()).add(L_)
     chk.require(not refused, "C17-c/reader-total", "Encoding<Tag>::decode",
                 "the reader can refuse a tag although all its bytes are there (first byte %s): the writer emits every such tag, so "
